@@ -843,6 +843,7 @@ W_STRUCTHIST = {"kind": "condhist", "n": 1, "ncb": 1, "cbits": None, "init": [[1
 
 CCV_TYPES = ["int", "bool", "i64", "i32", "u8", "arr0"]
 CCV_PATHS = ["add_gate", "class", "gate"]
+CC_FORMS = ["list", "tuple", "array", "int", "npint"]       # container form of classical_controls
 
 
 def _oracle_ccvtype(w):
@@ -858,7 +859,10 @@ def _oracle_ccvtype(w):
     val = S.ccv_as(w["type"], v)
     name = "CNOT" if w.get("quantum_control") else "X"
     n = 2 if w.get("quantum_control") else 1
-    kw = {"classical_controls": list(cc), "classical_control_value": val}
+    form = w.get("form", "list")
+    if form in ("int", "npint") and k != 1:
+        return False, "a bare int stands for a single classical control only"
+    kw = {"classical_controls": S.cc_as(form, cc), "classical_control_value": val}
     tk = {"targets": [n - 1], **({"controls": [0]} if n == 2 else {})}
     in_range = 0 <= v < 2 ** k
     try:
@@ -885,8 +889,9 @@ def _oracle_ccvtype(w):
         if abs(out.full().ravel()[-1]) > 0.5:
             fired_on.append(list(bits))
     if not in_range:
-        return True, (f"classical_control_value = {val!r} ({type(val).__name__}) on the {k} classical bits {cc} is no bit "
-                      f"pattern of them but was accepted ({w['path']}); the gate fires with classical bits {fired_on}")
+        return True, (f"classical_control_value = {val!r} ({type(val).__name__}) on the {k} classical bits {cc} (given as "
+                      f"{form}: {S.cc_as(form, cc)!r}) is no bit pattern of them but was accepted ({w['path']}, {name}); the gate "
+                      f"fires with classical bits {fired_on}")
     want = [list(b) for b in itertools.product([0, 1], repeat=ncb)
             if sum(b[c] << (k - 1 - i) for i, c in enumerate(cc)) == v]
     if fired_on != want:
@@ -901,7 +906,8 @@ def rand_ccvtype(rng):
     t = rng.choice(CCV_TYPES)
     v = rng.randint(0, 1) if t == "bool" else rng.randint(-2 if t not in ("u8",) else 0, 2 ** (k + 1) + 1)
     return {"kind": "ccvtype", "path": rng.choice(CCV_PATHS), "type": t, "cc": rng.sample(range(ncb), k), "ncb": ncb,
-            "value": v, "quantum_control": rng.random() < 0.3}
+            "value": v, "quantum_control": rng.random() < 0.3,
+            "form": rng.choice(CC_FORMS if k == 1 else CC_FORMS[:3])}
 
 
 def all_ccvtype():
@@ -910,6 +916,21 @@ def all_ccvtype():
         for path in CCV_PATHS:
             for v in ((1,) if t == "bool" else (2, 5, 4, 7)):
                 yield {"kind": "ccvtype", "path": path, "type": t, "cc": [0, 1], "ncb": 2, "value": v, "quantum_control": False}
+
+
+def all_ccform():
+    """every container form of classical_controls x every construction path x X / CNOT: a single control with the
+    values 1 (in range), 2, 3, 5 (out of range); two controls (sequence forms) with 2 and 5"""
+    for form in CC_FORMS:
+        for path in CCV_PATHS:
+            for qctrl in (False, True):
+                for v in (1, 2, 3, 5):
+                    yield {"kind": "ccvtype", "path": path, "type": "int", "cc": [0], "ncb": 2, "value": v,
+                           "quantum_control": qctrl, "form": form}
+                if form in ("list", "tuple", "array"):
+                    for v in (2, 5):
+                        yield {"kind": "ccvtype", "path": path, "type": "int", "cc": [1, 0], "ncb": 2, "value": v,
+                               "quantum_control": qctrl, "form": form}
 
 
 def all_addcircuit():
@@ -1188,7 +1209,7 @@ class C02(PropertyCheck):
         for case, impl, line, o in zip(cases, impls, lines, outs):
             nontrivial = any(("m" in op) or (op.get("cc") is not None) for op in case["ops"])
             inp = {k: case[k] for k in ("n", "ncb", "mode", "ops", "lists", "inits", "calls", "alts", "assign", "ccvtype",
-                                        "path") if k in case}
+                                        "path", "ccform") if k in case}
             res.case(inp, nontrivial=nontrivial, tags=tags_fn(case, impl) + (["conditions=assigned"] if case.get("assign") else [])
                      + (["edits=condition"] if case.get("alts") else []))
             try:
@@ -1223,9 +1244,11 @@ class C02(PropertyCheck):
               and (cb is None or all(b in (0, 1) for b in cb)))
         if not ok:
             return None
-        if case.get("ccvtype") and len(ops) == 1 and ops[0].get("cc") is not None and ops[0].get("ccv") is not None:
-            return {"kind": "ccvtype", "path": case.get("path", "add_gate"), "type": case["ccvtype"], "cc": ops[0]["cc"],
-                    "ncb": case["ncb"], "value": ops[0]["ccv"], "quantum_control": False}
+        if (case.get("ccvtype") or case.get("ccform")) and len(ops) == 1 and ops[0].get("cc") is not None \
+                and ops[0].get("ccv") is not None:
+            return {"kind": "ccvtype", "path": case.get("path", "add_gate"), "type": case.get("ccvtype", "int"),
+                    "cc": ops[0]["cc"], "ncb": case["ncb"], "value": ops[0]["ccv"], "quantum_control": False,
+                    "form": case.get("ccform", "list")}
         if case.get("assign"):
             return {"kind": "transformed", "transform": "assigned", "late": ["cc"], "n": case["n"], "ncb": case["ncb"],
                     "ops": ops, "init": init}
@@ -1311,10 +1334,18 @@ class C02(PropertyCheck):
                     for v in (range(2) if t_ == "bool" else range(2 ** (k + 1))):
                         for bits in itertools.product([0, 1], repeat=3):
                             cases.append(dict(table_case(3, cs, v, bits), ccvtype=t_, path=path_))
+        # ... and the CONTAINER FORM of classical_controls (bare int, numpy int, tuple, numpy array): a single control on each
+        # of 3 bits x values 0..3, two controls (sequence forms) x values 0..7, x every bit vector
+        for form_, path_ in (("int", "add_gate"), ("int", "class"), ("npint", "gate"), ("tuple", "class"), ("array", "add_gate")):
+            for k in ((1,) if form_ in ("int", "npint") else (1, 2)):
+                for cs in itertools.permutations(range(3), k):
+                    for v in range(2 ** (k + 1)):
+                        for bits in itertools.product([0, 1], repeat=3):
+                            cases.append(dict(table_case(3, cs, v, bits), ccform=form_, path=path_))
         self._run_cases(ctx, res, cases, lambda c, i: ["table=condition", "k=%d" % len(c["ops"][0]["cc"]),
                                                        "value=" + ("default" if c["ops"][0]["ccv"] is None else "explicit"),
                                                        "register=%d" % c["ncb"], "type=" + c.get("ccvtype", "int"),
-                                                       "path=" + c.get("path", "add_gate")],
+                                                       "path=" + c.get("path", "add_gate"), "form=" + c.get("ccform", "list")],
                         self._to_witness)
         res.exhaustive = True
         res.notes.append("exhaustive: every ordered subset of 3 classical bits (k=0..3) x every control value "
@@ -1503,7 +1534,7 @@ class C02(PropertyCheck):
                 yield w, d
         # small exhaustive enumerations: numeric type x construction path of classical_control_value; add_circuit blocks
         # with every condition value on 1-3 bits
-        for w in itertools.chain(all_ccvtype(), ([] if "C02-4" in pending() else all_addcircuit())):
+        for w in itertools.chain(all_ccvtype(), all_ccform(), ([] if "C02-4" in pending() else all_addcircuit())):
             f, d = oracle(w)
             if f:
                 yield w, d
